@@ -1,6 +1,8 @@
 import GluonModel.Sexp
 import GluonModel.Comments
+import GluonModel.PrettyDoc
 open GluonModel GluonModel.Comments
+open GluonModel.PrettyDoc (Doc)
 
 def q (l : List Char) : String := Sexp.quote (String.ofList l)
 
@@ -13,7 +15,33 @@ def renderMixed (r : List (Option (List Char)) × Bool) : String :=
   "(calls" ++ String.join (r.1.map (fun o => match o with | none => " none" | some i => " " ++ q i))
     ++ (if r.2 then " panic" else "") ++ ")"
 
+/-- `n` nil, `f` fail, `l` hard newline, `(t "s")`, `(a x y)`, `(g x)`, `(ne k x)`, `(fa b f)`,
+    `(u l r)`. -/
+partial def parseDoc : Sexp → Option Doc
+  | .atom "n" => some .nil
+  | .atom "f" => some .fail
+  | .atom "l" => some .line
+  | .list [.atom "t", .str s] => some (.text s.toList)
+  | .list [.atom "a", x, y] => do pure (.append (← parseDoc x) (← parseDoc y))
+  | .list [.atom "g", x] => do pure (.group (← parseDoc x))
+  | .list [.atom "ne", k, x] => do pure (.nest (← k.toNat?) (← parseDoc x))
+  | .list [.atom "fa", x, y] => do pure (.flatAlt (← parseDoc x) (← parseDoc y))
+  | .list [.atom "u", x, y] => do pure (.union (← parseDoc x) (← parseDoc y))
+  | _ => none
+
+def renderAt (d : Doc) (w : Sexp) : String :=
+  match w.toNat? with
+  | none => "bad-width"
+  | some w =>
+    match GluonModel.PrettyDoc.render w d with
+    | some out => q out
+    | none => "fail"
+
 def handle : List Sexp → String
+  | .atom "render" :: d :: ws =>
+    match parseDoc d with
+    | some d => "(r" ++ String.join (ws.map (fun w => " " ++ renderAt d w)) ++ ")"
+    | none => "bad-doc"
   | [.atom "fwd", .str s] => renderRun (forward s.toList)
   | [.atom "rev", .str s] => renderRun (backward s.toList)
   | [.atom "mix", .str s, .str pat] =>
